@@ -290,6 +290,116 @@ def run_case(case, R):
     vtime.run(main)
 
 
+# ---------------------------------------------------------------- two pairings in one process: what happens to one must not touch the other
+DISTURB = ["fin", "reset", "local-close", "cancel", "timeout", "partial-block-fin", "unsolicited", "garbage-frame", "reconnect-cycle"]
+
+
+def run_two(case, R):
+    """Pairing B has a request outstanding (and later a response split across reads) while something happens to pairing A's connection."""
+    from aiohomekit.controller.ip.pairing import IpPairing
+    R.nt()
+    R.cls("two-pairings", "disturb:" + case["disturb"], "order:" + case["order"])
+
+    async def main(loop):
+        w = IpWorld(loop, hosts=("10.0.0.5",), other_accessory_hosts=("10.0.0.6",), k=case.get("k", 0))
+        pd_other = dict(w.pairing_data, AccessoryPairingID=w.other.ident.pairing_id.decode(), AccessoryLTPK=w.other.ident.ltpk.hex(), AccessoryIP="10.0.0.6")
+        pd_other.pop("AccessoryIPs", None)
+        pd_main = dict(w.pairing_data, AccessoryIP="10.0.0.5")
+        pd_main.pop("AccessoryIPs", None)
+        first, second = (pd_main, pd_other) if case["order"] == "a-first" else (pd_other, pd_main)
+        p1, p2 = IpPairing(w.controller, dict(first)), IpPairing(w.controller, dict(second))
+        pa, pb = (p1, p2) if case["order"] == "a-first" else (p2, p1)            # A talks to the main accessory, B to the other one
+        held = {"a": [], "b": []}
+
+        def mk(tag):
+            def hook(conn, req):
+                if req.target.startswith("/characteristics?id=1.") and int(req.target.split(".")[-1]) >= 100:
+                    held[tag].append((conn, int(req.target.split(".")[-1])))
+                    return True
+                return False
+            return hook
+        w.acc.on_request, w.other.on_request = mk("a"), mk("b")
+
+        def wire(conn, rid):
+            body = json.dumps({"characteristics": [{"aid": 1, "iid": rid, "value": rid}]}, separators=(",", ":")).encode()
+            return conn.encrypt(b"HTTP/1.1 200 OK\r\nContent-Type: application/hap+json\r\nContent-Length: %d\r\n\r\n" % len(body) + body, [40, 1024])
+        try:
+            await pa.list_accessories_and_characteristics()
+            await pb.list_accessories_and_characteristics()
+            await vtime.settle(loop)
+            conns_b = len(w.other.conns)
+            ta = asyncio.ensure_future(pa.get_characteristics([(1, 100)]))
+            if case["disturb"] == "timeout":
+                await asyncio.sleep(25)          # A's request is 25 s old when B issues its own: only A's 30 s timer fires below
+            tb = asyncio.ensure_future(pb.get_characteristics([(1, 101)]))
+            await vtime.settle(loop)
+            if not held["a"] or not held["b"]:
+                raise AssertionError("harness: requests did not reach the accessories")
+            ca, cb = held["a"][0][0], held["b"][0][0]
+            # half of B's response is on its way when A is disturbed
+            wb = wire(cb, 101)
+            cut = 1 + case.get("cut", 30) % (len(wb) - 1)
+            cb.send_wire(wb[:cut])
+            await vtime.settle(loop)
+            d = case["disturb"]
+            if d in ("fin", "reset"):
+                ca.close(d)
+            elif d == "local-close":
+                await pa.close()
+            elif d == "cancel":
+                ta.cancel()
+            elif d == "timeout":
+                pass
+            elif d == "partial-block-fin":
+                wa = wire(ca, 100)
+                ca.send_wire(wa[:7])
+                await vtime.settle(loop)
+                ca.close("fin")
+            elif d == "unsolicited":
+                ca.send_wire(wire(ca, 100) + wire(ca, 7))
+            elif d == "garbage-frame":
+                ca.send_wire(b"\x05\x00" + bytes(21))
+            elif d == "reconnect-cycle":
+                ca.close("reset")
+                await asyncio.sleep(2)
+                await vtime.settle(loop)
+                for c_, _ in held["a"][1:]:
+                    pass
+            await vtime.settle(loop)
+            await asyncio.sleep(6 if d == "timeout" else 0.5)
+            await vtime.settle(loop)
+            what = f"pairing B had request 101 outstanding (response half delivered) while pairing A's connection saw '{d}' ({case['order']})"
+            if tb.done():
+                R.fail("C08.wrong-response" if not tb.cancelled() and tb.exception() is None else "C08.wrong-error",
+                       f"{what}: B's request ended early with {'cancelled' if tb.cancelled() else (tb.exception() or tb.result())!r:.120}", **({"got": "other-request"} if not tb.cancelled() and tb.exception() is None else {"exc": "other-pairing"}))
+                return
+            cb.send_wire(wb[cut:])
+            await vtime.settle(loop)
+            if not tb.done() or tb.cancelled() or tb.exception() is not None or tb.result() != {(1, 101): {"value": 101}}:
+                R.fail("C08.response-lost", f"{what}: B's response was then completed, B's request: {tb!r:.200}", exc="other-pairing")
+                return
+            if len(w.other.conns) != conns_b or not pb.is_connected:
+                R.fail("C08.wrong-error", f"{what}: B's connection was replaced or lost ({len(w.other.conns)} connections, connected {pb.is_connected})", exc="other-pairing")
+        finally:
+            for t in (locals().get("ta"), locals().get("tb")):
+                if t is not None:
+                    t.cancel()
+            for p_ in (pa, pb):
+                try:
+                    await p_.shutdown()
+                except Exception:  # noqa: BLE001
+                    pass
+            w.restore()
+    vtime.run(main)
+
+
+def enum_two(tier):
+    for d in DISTURB:
+        for order in ("a-first", "b-first"):
+            for cut in ((30,) if tier == "quick" else (1, 17, 30, 59, 90)):
+                yield {"disturb": d, "order": order, "cut": cut}
+
+
 # ---------------------------------------------------------------- protocol level: several requests in flight on one connection
 def run_pipelined(case, R):
     """The protocol object queues one future per request and resolves them in order (\"we can send many requests and dispatch
@@ -428,6 +538,8 @@ SPEC = Property(
         Layer("stalled-writes", run_case, enumerate=enum_stalled, exhaustive=True,
               space="the accessory stops reading (the controller's writes stay in its transport buffer, a close() then waits for the buffer as asyncio's does), "
                     "then every sequence over 10 events to depth 3 (quick) / 4 (thorough)", min_nontrivial=100),
+        Layer("two-pairings", run_two, enumerate=enum_two, exhaustive=True,
+              space="two pairings in one process, B with a request outstanding and its response half delivered, while A's connection sees one of 9 disturbances; both creation orders", min_nontrivial=10),
         Layer("pipelined-protocol", run_pipelined, strategy=pipelined_cases, n={"quick": 1000, "thorough": 20000}),
     ],
     assumptions=["event-loop-callback granularity on a zero-latency in-memory network",
